@@ -41,7 +41,8 @@ def run(eng, pid, tier, repo, scratch, seed):
            'harness_results': []}
     env = dict(os.environ, CARGO_NET_OFFLINE='true')
     procs = []
-    for h in eng['harnesses']:
+    hs = list(eng['harnesses']) + (list(eng.get('harnesses_thorough', [])) if tier == 'thorough' else [])
+    for h in hs:
         cmd = ['cargo', 'kani', '--harness', h, '--output-format', 'terse']
         res['cmds'].append('(cd $SCRATCH/kani_repo && ' + ' '.join(cmd) + ')')
         t0 = time.time()
